@@ -116,6 +116,18 @@ CLAIMS.update({
           'the oracle is the specification\'s. Contexts are a seeded slice of the C01 enumeration (1/40 quick, 1/4 thorough).'),
 })
 
+CLAIMS.update({
+ 'C06': dict(engine='Literal', technique='explicit TLA+ lexer state machine (decimal / binary normal forms) checked with TLC against the recorded front-end + interpreter result of every spelling', text=(
+     'spec/Literal.tla reads each spelling character by character (one action per character class) into a decimal normal form '
+     '(digit sequence without leading/trailing zeros and a power of ten) -- no big integers, so 40-digit mantissas and exponents of '
+     '+-400 are within reach -- and compares it with the normal form of what the real @fpy front end and interpreter return under '
+     'REAL for `return <literal>`; the same run checks that the lexer accepts exactly the strings Python accepts (every string of '
+     '<= 4-5 characters over {0,1,9,.,e,-,+}). Hexadecimal-float strings use a binary normal form; rational(p,q), digits(m,e,b) and '
+     'fp.round(<literal>) under narrow contexts are judged by exact rational comparison and the rounding oracle.'),
+     note='Known finding (not repairable without breaking an existing test): decimal literals that are not binary64 values are read '
+          'through Python\'s float.'),
+})
+
 ENGINES = [
  ('Num', 'spec/Num.tla', ['C01', 'C02', 'C05', 'C16', 'C17'], 'exact rational / special-value numbers'),
  ('Rounding', 'spec/Rounding.tla', ['C01', 'C02', 'C10', 'C16', 'C17'], 'context families, core formats, rounding function, expectations'),
@@ -128,6 +140,7 @@ ENGINES = [
  ('FPyMachine', 'spec/FPyMachine.tla', ['C04', 'C07', 'C08', 'C09'], 'small-step abstract machine for FPy programs (real ASTs as data)'),
  ('MCMachine', 'spec/MCMachine.tla', ['C04'], 'machine runs judged against recorded interpreter outcomes; machine invariants'),
  ('EFT', 'spec/EFT.tla', ['C20'], 'laws of the error-free transformations on machine runs'),
+ ('Literal', 'spec/Literal.tla', ['C06'], 'literal lexer and normal forms'),
  ('Scoping', 'spec/Scoping.tla', ['C15'], 'scoping rules and path machine'),
  ('Equiv', 'spec/Equiv.tla', ['C07', 'C08', 'C09'], 'two-phase machine: original vs transformed program'),
 ]
